@@ -40,15 +40,23 @@ def ag_step_same(op, st, a, go, canon_obs, canon_out) -> bool:
     if st['other'] is not None and ag_obs(go['other'], canon_obs) != ag_obs(st['other'], canon_obs): return False
     return True
 
-def run_both(hand_payloads: list[dict], gen_op: str, rewrite=None) -> tuple[list, list]:
-    """one driver batch for the hand-model payloads and their generated-code twins (same payload, other `op`)"""
-    gen_payloads = []
-    for p in hand_payloads:
+def run_both(hand_payloads: list[dict], gen_op: str, rewrite=None, every: int = 1) -> tuple[list, list]:
+    """one driver batch for the hand-model payloads and their generated-code twins (same payload, other `op`);
+    `every = k`: only every k-th case gets a twin (the others: `None`) - keeps the cost of the third column bounded"""
+    gen_payloads, idx = [], []
+    for i, p in enumerate(hand_payloads):
+        if i % every: continue
         q = dict(p); q['op'] = gen_op
         if rewrite: q = rewrite(q)
-        gen_payloads.append(q)
+        gen_payloads.append(q); idx.append(i)
     out = run_driver(hand_payloads + gen_payloads)
-    return out[:len(hand_payloads)], out[len(hand_payloads):]
+    # the answers are a few hundred thousand small containers that live until the end of the run: keep the cyclic
+    # collector from walking them again and again while the real code runs (measured: C05 quick 27 s -> 18 s)
+    import gc
+    gc.collect(); gc.freeze()
+    gen = [None] * len(hand_payloads)
+    for i, o in zip(idx, out[len(hand_payloads):]): gen[i] = o
+    return out[:len(hand_payloads)], gen
 
 def divergence(pid: str, op: str, what: str, replay: dict) -> Violation:
     return Violation(what=f'the GENERATED Lean code (translation of the current source) and the implementation disagree {what}; '
